@@ -5,7 +5,7 @@ import worldgen as W
 import radlib as R
 ID = "C17"
 LEAN_TARGETS = ["Rsp.Props.C17", "Rsp.Props.C17Inv", "Rsp.Props.C17Radsrv", "Rsp.Props.C17Replyh", "Rsp.Props.C17Tame", "Rsp.Props.C17Writer", "Rsp.Tie.C17"]
-THEOREMS = ["Rsp.Tie.C17.lockExprs_classified", "Rsp.Tie.C17.newrqref_protocol", "Rsp.Tie.C17.freerq_protocol", "Rsp.Tie.C17.refcount_writers", "Rsp.Tie.C17.udp_scan_other_socket_tie", "Rsp.Props.C17.no_waits_for_cycle", "Rsp.Props.C17.chain_rank_increases", "Rsp.Props.C17.edgeOk_sound",
+THEOREMS = ["Rsp.Tie.C17.lockExprs_classified", "Rsp.Tie.C17.newrqref_protocol", "Rsp.Tie.C17.freerq_protocol", "Rsp.Tie.C17.refcount_writers", "Rsp.Tie.C17.udp_scan_other_socket_tie", "Rsp.Tie.C17.replyh_locking_tie", "Rsp.Tie.C17.replyh_queues_and_releases_under_the_lock", "Rsp.Props.C17.no_waits_for_cycle", "Rsp.Props.C17.chain_rank_increases", "Rsp.Props.C17.edgeOk_sound",
             "Rsp.Props.C17.freerq_keeps", "Rsp.Props.C17.freerq_last", "Rsp.Props.C17.freerq_other", "Rsp.Props.C17.freerq_absent",
             "Rsp.Props.C17.freerq_inv", "Rsp.Props.C17.newrqref_inv", "Rsp.Props.C17.cacheFill_inv", "Rsp.Props.C17.cacheClear_inv", "Rsp.Props.C17.qPush_inv",
             "Rsp.Props.C17.slotFill_inv", "Rsp.Props.C17.slotClear_inv", "Rsp.Props.C17.freerqoutdata_inv", "Rsp.Props.C17.removeclientrq_inv",
